@@ -97,7 +97,7 @@ func runC06(e *Env) {
 	firstUnsubRet := 0
 	unsubCalls := 0
 	doUnsub := func(who string) {
-		if h == nil || h.S == nil {
+		if h == nil || h.Sub() == nil {
 			return
 		}
 		unsubCalls++
@@ -107,23 +107,23 @@ func runC06(e *Env) {
 					e.Violate("C06", "unsubscribe-panics", fmt.Sprintf("Unsubscribe panicked: %v", r))
 				}
 			}()
-			h.S.Unsubscribe()
+			h.Sub().Unsubscribe()
 		}()
 		ret := e.Step()
 		if firstUnsubRet == 0 || ret < firstUnsubRet {
 			firstUnsubRet = ret
 		}
-		if !h.S.IsClosed() {
+		if !h.Sub().IsClosed() {
 			e.Violate("C06", "not-closed-after-unsubscribe", who+": IsClosed() is false after Unsubscribe returned")
 		}
 		if sc.Int("repeat", 0) == 1 {
-			h.S.Unsubscribe()
+			h.Sub().Unsubscribe()
 		}
 	}
 	insideDone := false
 	if cut > 0 && sc.Int("inside", 0) == 1 {
 		hook := func() {
-			if !insideDone && len(rec.Events) >= cut && h.S != nil {
+			if !insideDone && len(rec.Events) >= cut && h.Sub() != nil {
 				insideDone = true
 				doUnsub("observer")
 			}
@@ -135,7 +135,7 @@ func runC06(e *Env) {
 	if cut >= 0 {
 		for i := 0; i < sc.Int("unsubs", 1); i++ {
 			e.Go("unsubscriber", func() {
-				e.WaitFor(func() bool { return h.Returned && len(rec.Events) >= cut })
+				e.WaitFor(func() bool { return h.Ret() && len(rec.Events) >= cut })
 				doUnsub("unsubscriber")
 			})
 		}
@@ -152,19 +152,19 @@ func runC06(e *Env) {
 		early := i == 0
 		e.Go("waiter", func() {
 			if early {
-				e.WaitFor(func() bool { return h.Returned })
+				e.WaitFor(func() bool { return h.Ret() })
 			} else {
-				e.WaitFor(func() bool { return h.Returned && h.S.IsClosed() })
+				e.WaitFor(func() bool { return h.Ret() && h.Sub().IsClosed() })
 			}
-			h.S.Wait()
-			w.closedAt = h.S.IsClosed()
+			h.Sub().Wait()
+			w.closedAt = h.Sub().IsClosed()
 			w.ret = e.Step()
 			w.returned = true
 		})
 	}
 	e.Settle()
 	FeedAll(srcs)
-	closed := func() bool { return h.Returned && h.S != nil && h.S.IsClosed() }
+	closed := func() bool { return h.Ret() && h.Sub() != nil && h.Sub().IsClosed() }
 	ok := e.RunUntil(closed, 400)
 	if e.K.Capped() {
 		return
